@@ -9,6 +9,8 @@ import (
 	"fmt"
 	"runtime"
 	"sync"
+	"sync/atomic"
+	"time"
 
 	"github.com/maypok86/otter/v2/internal/deque/queue"
 )
@@ -24,6 +26,58 @@ func concMpsc(args []string, out *bufio.Writer) {
 	for i := *from; i < *from+*n; i++ {
 		r := &rng{s: scriptSeed(*seed, "concmpsc", i)}
 		fmt.Fprintf(out, "script concmpsc-%d-%d\n", *seed, i)
+		if i%3 == 2 {
+			// scenario C: many fresh tiny queues that three producers keep completely full while the consumer crosses every
+			// link to the next chunk: each element exactly once, in its producer's order, and the consumer never spins forever
+			trials := 300
+			for tr := 0; tr < trials; tr++ {
+				q := queue.NewMPSC[ev](2, 4)
+				fmt.Fprintf(out, "scenario tiny trial=%d\n", tr)
+				var stop atomic.Bool
+				var wg sync.WaitGroup
+				for p := 0; p < 3; p++ {
+					wg.Add(1)
+					go func(p int) {
+						defer wg.Done()
+						for s := 0; !stop.Load(); {
+							if q.TryPush(&ev{p, s}) {
+								s++
+							}
+						}
+					}(p)
+				}
+				popped := 0
+				hang := false
+				done := make(chan struct{})
+				var got []ev
+				go func() {
+					defer close(done)
+					for popped < 12 {
+						if e := q.TryPop(); e != nil {
+							got = append(got, *e)
+							popped++
+						}
+					}
+				}()
+				select {
+				case <-done:
+				case <-time.After(3 * time.Second):
+					hang = true
+				}
+				stop.Store(true)
+				if hang {
+					fmt.Fprintf(out, "hang popped=%d\n", popped)
+					fmt.Fprintf(out, "end\n")
+					return // the consumer goroutine is lost inside TryPop: end this run
+				}
+				wg.Wait()
+				for _, e := range got {
+					fmt.Fprintf(out, "deliver %d %d\n", e.p, e.seq)
+				}
+				fmt.Fprintf(out, "end\n")
+			}
+			continue
+		}
 		ini := pick(r, []uint32{2, 4, 8, 16})
 		mx := pick(r, []uint32{4, 8, 32, 128, 1024, 2048})
 		if mx < ini {
